@@ -22,6 +22,7 @@ CLAIMED["C04"] = "For 13 PD classes at n=2 and 8 Kronecker/block classes at size
 CLAIMED["C06"] = "cholesky (both orientations, both call orders), root_decomposition / root_inv_decomposition (default, cholesky, symeig, lanczos at full Krylov dimension), eigh / eigvalsh / _symeig / diagonalization(symeig) and their torch.linalg forms: the defining products (L L^T, R^T R, R R^T = A, A R R^T = I, Q^T Q = I, Q diag(w) Q^T = A) are proved for all parameter values of 22 PD classes (n=2; Kronecker/block 4x4) and of eigen-parametrised operators A = Q diag(w) Q^T (rotation atom, ascending spectrum >= 1/8)."
 CLAIMED["C05"] = "Deterministic paths: logdet / torch.logdet, inv_quad (vector, matrix, reduce on/off) and inv_quad_logdet (all flag combinations, rhs None) are proved equal to log det(A) (cofactor determinant under one log atom, log-linear rule) and to sum(R * A^{-1}R) (cofactor inverse) for all parameter values of 25 PD classes incl. eigen-parametrised Kronecker(+diagonal) operators whose eigen-structured branches are forced by max_cholesky_size. The stochastic Lanczos-quadrature clause is not covered (see DESIGN §7)."
 CLAIMED["C13"] = "Aliasing monitor of the symbolic executor: every leaf storage is caller-owned; every in-place / out= / copy_ / index_put_ / RNG write the library issues (thousands per run) is checked for landing in caller-owned storage with a changed symbolic value. 27 operator classes x their public operations and 13 utility/solver families (linear_cg, minres, lanczos, psd_safe_cholesky, QR, Toeplitz, sparse, interpolation, pivoted Cholesky, Kronecker solve, BatchRepeat, cat_rows, detach_/requires_grad_) x 4 argument layouts (contiguous, stride-0 expanded, transposed view, slice of a larger owned buffer), on every solver-enumerated path."
+CLAIMED["C16"] = "The real psd_safe_cholesky on EVERY symmetric 1x1 / 2x2 matrix (free entries), unbatched and in batches of 2 with mixed members, explicit jitter / settings, upper both ways, max_tries 1..3: the Cholesky stub forks on the sign of each pivot, so every outcome pattern (which member fails at which try) is a path; per path z3 proves triangularity/orientation, F F^T - A = delta I per member, delta in {0, jitter*10^i}, exactness for PD members, minimality of i against the leading-minor PD criterion, NotPSDError only when a member is still not PD at the last level; warning iff retry; input not written."
 CLAIMED["C17"] = "CrossHair executes the REAL settings base classes (and the two composites, and the one concrete class that overrides _set_state) symbolically under histories of 6 symbolic events (construct / enter / exit / exit-by-exception / re-enter) with symbolic values over two setting classes; post: the real classes report the value of a reference stack model after every event. 19 conditions, each 'Confirmed over all paths'; all concrete setting classes are checked by reflection to inherit the proven methods."
 NA = {}
 checks = []
